@@ -37,7 +37,7 @@ def shape_case(drv, case, prop, cached=False):
     tb = encode_text(case['text'], case.get('enc', 4))
     try:
         r = drv.call(b'S' + struct.pack('<IBB', fid, src, opts) + shape_params(tb, enc=case.get('enc', 4), dir=case.get('dir', 0), ppm=case.get('ppm', 0.0),
-                     feats=[tuple(x) for x in case.get('feats', [])], check_gid=bool(case.get('check_gid')), dump=False, query_all=True, all_sub=bool(case.get('all_sub'))), timeout=60 if case.get('confirm_hang') else 15)
+                     feats=[tuple(x) for x in case.get('feats', [])], check_gid=bool(case.get('check_gid')), dump=False, query_all=True, all_sub=bool(case.get('all_sub'))), timeout=40 if case.get('confirm_hang') else 15)
     except DriverCrash as e:
         if prop == 'C02':
             raise Violation('sanitizer:' + e.kind + ':' + e.summary, case, e.stderr[-1500:])
@@ -47,12 +47,12 @@ def shape_case(drv, case, prop, cached=False):
             raise fw.Hang(case)          # not shrunk (every step would cost a watchdog period); confirmed afterwards, alone
         if prop == 'C02':
             # confirmation: alone, 60 s limit, three times
-            n = 0
-            for _ in range(3):
-                d2 = Driver(timeout=60)
+            n = 1                    # the call above (confirm_hang: alone, long limit) was the first confirmation
+            for _ in range(2):
+                d2 = Driver(timeout=40)
                 try:
                     fid2 = d2.put_font(font)
-                    d2.call(b'S' + struct.pack('<IBB', fid2, src & 0x7f, opts) + shape_params(tb, enc=case.get('enc', 4), dir=case.get('dir', 0), ppm=case.get('ppm', 0.0), dump=False), timeout=60)
+                    d2.call(b'S' + struct.pack('<IBB', fid2, src & 0x7f, opts) + shape_params(tb, enc=case.get('enc', 4), dir=case.get('dir', 0), ppm=case.get('ppm', 0.0), dump=False), timeout=40)
                 except DriverHang:
                     n += 1
                 except DriverCrash:
@@ -60,7 +60,7 @@ def shape_case(drv, case, prop, cached=False):
                 finally:
                     d2.kill()
             if n == 3:
-                raise Violation('does-not-return', dict((k, v) for k, v in case.items() if k != 'confirm_hang'), 'gr_make_seg exceeded 60 s three times (typical case: milliseconds)')
+                raise Violation('does-not-return', dict((k, v) for k, v in case.items() if k != 'confirm_hang'), 'gr_make_seg exceeded 40 s three times, alone in a fresh process (typical case: milliseconds)')
         raise Inconclusive()
     if 'error' in r:
         raise Inconclusive()
